@@ -230,4 +230,10 @@ class DictField(Field):
         """
         if not self._use_proxy:
             return value
+        if isinstance(value, dict):
+            # keys and values are stored in their basic form, too
+            value = {
+                self.key_field.to_python(cfg, key): self.value_field.to_python(cfg, val)  # type: ignore
+                for key, val in value.items()
+            }
         return DictProxy(cfg, self, value)
